@@ -306,6 +306,8 @@ pub struct SimCfg {
     pub linger_ms: u64,
     pub disk_on: fn(&EvKind) -> bool,
     pub seed: u64,
+    /// closure-scripted tracker (overrides `tracker`): gets the announce number and the log
+    pub tracker_fn: Option<Box<dyn FnMut(u64, &Log) -> TrackerStep>>,
     /// extra driver logic run inside the simulation (gets the ctl channel)
     pub driver: Option<Box<dyn FnOnce(Log, mpsc::Sender<VerifCtl>) -> Pin<Box<dyn Future<Output = ()>>>>>,
 }
@@ -463,12 +465,16 @@ pub fn run_sim(cfg: SimCfg, scratch: &Path, wall_limit_s: u64) -> Outcome {
         {
             let slots = slots.clone();
             let mut script = cfg.tracker;
+            let mut script_fn = cfg.tracker_fn;
             let calls = calls.clone();
             let log = log.clone();
             hooks::script_tracker(Some(Box::new(move |n: u64| {
                 calls.set(n + 1);
-                let step = if (n as usize) < script.len() { std::mem::replace(&mut script[n as usize], TrackerStep::Good) } else { TrackerStep::Good };
-                log.note("", format!("announce #{}", n));
+                let step = match script_fn.as_mut() {
+                    Some(f) => f(n, &log),
+                    None => if (n as usize) < script.len() { std::mem::replace(&mut script[n as usize], TrackerStep::Good) } else { TrackerStep::Good },
+                };
+                log.note("", format!("announce #{} -> {}", n, match &step { TrackerStep::Fail(e) => format!("fail: {}", e), TrackerStep::Body(b) => format!("body: {}", crate::util::show(b)), TrackerStep::Good => "good reply".to_string() }));
                 match step {
                     TrackerStep::Fail(e) => Err(e),
                     TrackerStep::Body(b) => Ok(b),
